@@ -148,13 +148,45 @@ func runC07(e *Env) Outcome {
 	sc := &c07Scenario{Format: f.String(), Cfg: cfgd}
 	var bytes []byte
 	structShaped := false
-	mode := t.Intn("doc-mode", 9)
+	mode := t.Intn("doc-mode", 10)
 	var litName string
 	var litTemplate func() interface{}
 	switch {
+	case mode == 9:
+		// the marshaled document of a drawn value (pointers to maps and slices,
+		// nested structs, arrays, recursive types ...), damaged in storage, read
+		// back into a template of the value's OWN type: the typed builders are
+		// entered deeply before the damage is met
+		vo := gen.DrawValOpts(t)
+		vo.NoCycles = !cfgd.Recursion
+		val := gen.DrawValue(t, vo)
+		p := e.Op("MarshalToDocument/typed-value", func() {
+			if f == gen.CBE {
+				bytes, _ = ce.MarshalToCBEDocument(val.V, cfg)
+			} else {
+				bytes, _ = ce.MarshalToCTEDocument(val.V, cfg)
+			}
+		})
+		if p != nil {
+			sc.Failing, sc.Value = "MarshalToDocument/typed-value", val.Desc
+			e.Fail("panic-escaped", fmt.Sprintf("entry=%s site=%s", sc.Failing, p.Frame), p.Value)
+			return e.Finish(Hash("c07", val.Desc, cfgd), nil, sc)
+		}
+		if nf := t.Intn("n-sf", 4); nf > 0 && len(bytes) > 0 {
+			sc.Faults = simio.DrawStorageFaults(t, nf, len(bytes), nil)
+			bytes = simio.Apply(bytes, sc.Faults)
+			for _, sf := range sc.Faults {
+				e.Count("fault:storage/"+sf.Kind, 1)
+			}
+		}
+		litName, litTemplate = val.Desc, val.New
+		e.Count("docs_marshaled_into_own_type", 1)
 	case mode == 8 && f == gen.CTE:
 		bytes, _, litName, litTemplate = adversarialLiteral(t)
 		e.Count("docs_huge_exponent_literal", 1)
+	case mode == 8:
+		bytes, _, litName, litTemplate = adversarialNumberCBE(t)
+		e.Count("docs_huge_exponent_number", 1)
 	case mode == 7:
 		depth := []int{5, 70, 1001, 3000}[t.Intn("deep-depth", 4)]
 		if !e.Thorough() && depth > 1001 {
